@@ -65,6 +65,7 @@ func init() {
 		ID:  "C15",
 		New: func() interface{} { return &EvCase{} },
 		Gen: func(t *rapid.T, ctx *Ctx) interface{} {
+			gen.EmitEmptyData = true // zero-length data events inside chunks must be passed on too
 			return &EvCase{Events: gen.Document(t, c15Opts(ctx))}
 		},
 		Check: func(ci interface{}, ctx *Ctx) error {
@@ -91,6 +92,12 @@ func init() {
 				return genInvalid(ctx, idx, perr, in)
 			}
 			ctx.NonTrivial(features(ctx, c.Events))
+			for i := range c.Events {
+				if c.Events[i].K == ev.ArrayData && len(c.Events[i].Bs) == 0 {
+					ctx.Label("zero-length data event")
+					break
+				}
+			}
 			want := make([]ev.Event, len(snapshot))
 			for i, e := range snapshot {
 				want[i] = c15Expected(e)
